@@ -10,11 +10,14 @@ Fixpoint enc_value (v : value) : list Z :=
   | VBool b => [1; if b then 1 else 0]
   | VList l => 2 :: Z.of_nat (length l) ::
       (fix go (l : list value) : list Z := match l with [] => [] | x :: r => enc_value x ++ go r end) l
+  | VMap d m => 3 :: Z.of_nat (length m) ::
+      (fix go (m : list (Z * value)) : list Z :=
+         match m with [] => [] | (k, x) :: r => k :: enc_value x ++ go r end) m
   end.
 Definition enc_values (l : list value) : list Z :=
   Z.of_nat (length l) :: flat_map enc_value l.
 
-Definition enc_path (p : list nat) : list Z := Z.of_nat (length p) :: map Z.of_nat p.
+Definition enc_path (p : list Z) : list Z := Z.of_nat (length p) :: p.
 
 (* events: 0 = log, 1 = store, 2 = call, 3 = ret *)
 Definition enc_event (e : event) : list Z :=
